@@ -27,7 +27,7 @@ def run(ctx, only=None):
             ctx.sample(r)
     if ctx.tier == 'thorough' or os.environ.get('VERIF_SAN'):
         # Miri: unchecked indexing and Cell aliasing in uf.rs, hash-set juggling in trrel_union_find.rs (short histories)
-        mrecs, ub = sanitize.miri_libmon(ctx, 'c18_uf', ['--len=2', '--uflen=2', '--random=6', '--seed=%d' % ctx.seed], timeout=3000)
+        mrecs, ub = sanitize.miri_libmon(ctx, 'c18_uf', ['--miri=1'], timeout=3000)
         ctx.cov['miri'] = {'histories': sum(r.get('histories', 0) for r in mrecs), 'ub_report': bool(ub), 'flags': sanitize.MIRI_FLAGS}
         recs += [r for r in mrecs if r.get('violation')]
         if ub == 'timeout' or (not ub and not any(r.get('done') for r in mrecs)):
@@ -37,7 +37,7 @@ def run(ctx, only=None):
         elif ub:
             ctx.inconc('Miri error without a /repo frame: %s' % ub[-300:])
         # ASan on a larger random workload
-        arecs, st = sanitize.libmon_san(ctx, 'asan', 'c18_uf', ['--len=3', '--uflen=3', '--random=3000', '--seed=%d' % ctx.seed])
+        arecs, st = sanitize.libmon_san(ctx, 'asan', 'c18_uf', ['--len=3', '--uflen=3', '--random=200', '--seed=%d' % ctx.seed])
         ctx.cov['asan'] = dict(st, histories=sum(r.get('histories', 0) for r in arecs))
         recs += [r for r in arecs if r.get('violation')]
     for v in [r for r in recs if r.get('violation')]:
